@@ -12,7 +12,9 @@ Case kinds: marg (one-step marginal of every subset, evaluated after / before / 
 kept inputs), marg2 (two steps, both orders), lognorm, plate (reduce add, optionally followed by a marginal), mix
 (mixture reduce over integer and real inputs), contract (Contraction of two Gaussians / mixtures), intvar / intgauss
 (Integrate rules), moment (moment matching: mass, mean, covariance read off a quadratic fitted through the lattice
-values of the result), neg (too little information: the operation must not return numbers).
+values of the result), neg (too little information: the operation must not return numbers), hist (history on one
+object: touch a cached property -> rename / swap / index inputs -> reduce; the closed form of the substituted Gaussian
+must be obtained whatever was computed before the substitution).
 
 Completion is demanded (a raise or a lazy result is a violation ``<site>:declined``) for marg, marg2, lognorm, plate
 on inputs with rank >= dim; everywhere else a raise / lazy result is a decline.
@@ -532,6 +534,19 @@ def cases(tier):
                 for k, (RI, RR) in enumerate(combos):
                     if (RI, RR) not in combos[:k]:
                         out.append(["contract", sig, rank, sig2, rank2, list(bs), list(b2), RI, RR])
+        # -- histories on one object: touch a cached property, substitute, then reduce
+        if bs and (thorough or (len(rs) <= 2 and dim <= 3)):
+            for kt, touch in enumerate(HIST_TOUCH):
+                if touch == "margpart" and len(rs) < 2:
+                    continue
+                for rename in HIST_RENAME:
+                    if (rename == "swap" and len(bs) < 2) or (rename == "swapreal" and len(rs) < 2):
+                        continue
+                    left = len(bs) - (1 if rename == "index" else 0)
+                    for final in HIST_FINAL:
+                        if (final == "margpart" and len(rs) < 2) or (final in ("plate", "mix") and not left):
+                            continue
+                        out.append(["hist", sig, dim + kt % 2, touch, rename, final])
         # -- moment matching
         if bs:
             lsets = [list(bs)] + ([[bs[0]], [bs[1]]] if len(bs) == 2 else [])
@@ -587,6 +602,7 @@ SITES = {
     "intgauss": "Integrate:gaussian-gaussian",
     "moment": "moment_matching",
     "contract": "Contraction:gaussian-mixtures",
+    "hist": "history:cached-property-after-substitution",
     "neg": "rank-deficient-accepted",
 }
 COMPLETION_DEMANDED = ("marg", "marg2", "lognorm", "plate")
@@ -602,6 +618,7 @@ VKEYS = {
     "intgauss": ("kind", "negated", "integrand_batch"),
     "moment": ("kind", "reduced_reals_any"),
     "contract": ("kind", "operands", "second_batch", "reduced_reals"),
+    "hist": ("kind", "touch", "rename", "final"),
     "neg": ("kind", "op", "columns_cover_second_block"),
 }
 
@@ -639,9 +656,12 @@ class Plan:
     quadratic = True  # the result is a quadratic in the remaining real inputs (full unisolvent lattice is used)
 
 
+_OVERRIDE = {}  # (sig, rank) -> (white_vec, prec_sqrt): parameters prescribed by an enclosing plan (plan_hist)
+
+
 def _base(case, seed):
     sig, rank = case[1], case[2]
-    wv, ps = params(sig, rank, seed)
+    wv, ps = _OVERRIDE.get((sig, rank)) or params(sig, rank, seed)
     P, eta, c = G.dense_from_sqrt(wv, ps)
     pl = Plan()
     pl.sig, pl.rank, pl.wv, pl.ps, pl.P, pl.eta, pl.c = sig, rank, wv, ps, P, eta, c
@@ -1015,7 +1035,78 @@ def plan_contract(case, seed):
     return pl
 
 
+HIST_TOUCH = ("none", "lognorm", "margall", "margpart", "integrate", "moment")
+HIST_RENAME = ("int", "real", "int+real", "swap", "swapreal", "index")
+HIST_FINAL = ("margall", "margpart", "lognorm", "plate", "mix")
+
+
+def plan_hist(case, seed):
+    """History on ONE object: touch a cached property of g0, substitute (rename / swap / index), then run a final
+    operation on the substituted Gaussian.  The reference is the closed form of the substituted Gaussian alone: the
+    outcome must not depend on what was computed before the substitution."""
+    _, sig, rank, touch, rename, final = case
+    wv, ps = params(sig, rank, seed)
+    rs = [n for n, _ in reals_of(sig)]
+    bs = batch_of(sig)
+    bn = [n for n, _ in bs]
+    # 1. touch
+    if touch == "none":
+        tcode = ""
+    elif touch == "lognorm":
+        tcode = "_t = g0.log_normalizer\n"
+    elif touch == "margall":
+        tcode = "_t = g0.reduce(ops.logaddexp, %s)\n" % _fs(rs)
+    elif touch == "margpart":
+        tcode = "_t = g0.reduce(ops.logaddexp, %s)\n" % _fs(rs[:1])
+    elif touch == "integrate":  # reads _mean, _log_normalizer, _precision_chol
+        tcode = "_t = Integrate(g0, g0, %s)\n" % _fs(rs)
+    elif touch == "moment":  # reads _mean, _covariance, log_normalizer
+        tcode = '_w0 = Tensor(np.zeros(%d), OrderedDict([("%s", Bint[%d])]))\n' % (bs[0][1], bn[0], bs[0][1])
+        tcode += "with moment_matching:\n    _t = (g0 + _w0).reduce(ops.logaddexp, %s)\n" % _fs(bn[:1])
+    else:
+        raise ValueError(touch)
+    # 2. substitution
+    wv2, ps2 = wv, ps
+    if rename == "index":
+        k = bs[0][1] - 1
+        sig2 = tuple(e for e in sig if e[0] != bn[0])
+        wv2, ps2 = np.ascontiguousarray(np.take(wv, k, axis=0)), np.ascontiguousarray(np.take(ps, k, axis=0))
+        rcode = "g = g0(%s=%d)\n" % (bn[0], k)
+    else:
+        ren = {
+            "int": {bn[0]: "k"},
+            "real": {rs[0]: "w"},
+            "int+real": {bn[0]: "k", rs[0]: "w"},
+            "swap": {bn[0]: bn[-1], bn[-1]: bn[0]},
+            "swapreal": {rs[0]: rs[-1], rs[-1]: rs[0]},
+        }[rename]
+        sig2 = tuple((ren.get(n, n), kd, sp) for n, kd, sp in sig)
+        rcode = "g = g0(%s)\n" % ", ".join('%s="%s"' % kv for kv in sorted(ren.items()))
+    rs2 = [n for n, _ in reals_of(sig2)]
+    bn2 = [n for n, _ in batch_of(sig2)]
+    inner = {
+        "margall": ["marg", sig2, rank, rs2, "after", []],
+        "margpart": ["marg", sig2, rank, rs2[:1], "after", []],
+        "lognorm": ["lognorm", sig2, rank],
+        "plate": ["plate", sig2, rank, bn2[:1], []],
+        "mix": ["mix", sig2, rank, list(bn2), bn2[:1], list(rs2), "gl", None],
+    }[final]
+    _OVERRIDE[(sig2, rank)] = (wv2, ps2)
+    try:
+        pl = PLANNERS[inner[0]](inner, seed)
+    finally:
+        _OVERRIDE.clear()
+    prefix = gaussian_code("g", sig2, wv2, ps2)
+    assert pl.setup.startswith(prefix) and not pl.pre
+    pl.body = tcode + rcode + pl.setup[len(prefix):] + pl.body
+    pl.setup = gaussian_code("g0", sig, wv, ps)
+    pl.features.update(kind="hist", inner_kind=inner[0], touch=touch, rename=rename, final=final, order=order_text(sig))
+    pl.site = "history:cached-property-after-substitution"
+    return pl
+
+
 PLANNERS = {
+    "hist": plan_hist,
     "contract": plan_contract,
     "marg": plan_marg,
     "marg2": plan_marg2,
@@ -1128,12 +1219,19 @@ def check_value_case(case, seed, key):
                 snippet(pl, vec, expected),
             )
     cls = "ok:%s:%s" % (kind, _class_of(pl, r))
+    if kind == "hist":  # non-trivial only when something was computed on the object before the substitution
+        return core.ok(key, pl.features["touch"] != "none", cls, transitions=pl.body.count("\n") + 1 + n_cmp)
     return core.ok(key, True, cls, transitions=pl.body.count("\n") + pl.setup.count("= g") + n_cmp)
 
 
 def _class_of(pl, r):
     f = pl.features
     bits = [type(r).__name__.split("[")[0]]
+    for k in ("touch", "rename", "final"):
+        if k in f:
+            bits.append(str(f[k]))
+    if "touch" in f:
+        return ",".join(bits)
     for k in ("block", "mode", "then_marginalise", "scope", "measure", "operands", "second_batch", "reduced_reals", "edge",
               "negated", "integrand_batch"):
         if k in f:
